@@ -1,5 +1,6 @@
 import Sebuf.Driver
 import Sebuf.DriverC12
+import Sebuf.DriverC16
 namespace Sebuf.DriverOps
 open Lean (Json)
 def dispatch (op : String) (j : Json) : Json :=
@@ -7,6 +8,7 @@ def dispatch (op : String) (j : Json) : Json :=
   | "route5" => Sebuf.Driver.opRoute5 j
   | "route_svc" => Sebuf.Driver.opRouteSvc j
   | "gen_outcome" => Sebuf.Driver.opGenOutcome j
+  | "mock_graph" => Sebuf.Driver.opMockGraph j
   | "strfn" => Sebuf.Driver.opStrFn j
   | _ => Json.mkObj [("driver_err", Json.str ("unknown op " ++ op))]
 end Sebuf.DriverOps
